@@ -55,7 +55,7 @@ ISO8601_DT = re.compile(
     "    )?"
     ")?"
     "$",
-    re.VERBOSE,
+    re.VERBOSE | re.ASCII,
 )
 
 US_PER_MINUTE = 60 * US_PER_SECOND
@@ -81,7 +81,7 @@ ISO8601_DURATION = re.compile(
     r"    (?P<seconds>\d+(?:[.,]\d+)?S)?"
     ")?"
     "$",
-    re.VERBOSE,
+    re.VERBOSE | re.ASCII,
 )
 
 
